@@ -73,7 +73,7 @@ Q = {
     "opposite_face": ("lookup", lambda m, c, u, v, F: c.opposite_face(u, v, F), lambda r, s, u, v, F: r.opposite_face(u, v, F), "exact"),
     "opposite_face_inds": ("lookup", lambda m, c, u, v, F: c.opposite_face(u, v, F, True), _opp_face_inds, "exact"),
     "common_edge": ("lookup", lambda m, c, f1, f2: c.common_edge(f1, f2), _common_edge, "anyof"),
-    "f2f": ("lookup", lambda m, c, f: c.face_to_faces(f), lambda r, s, f: r.face_to_faces(f), "exact"),
+    "f2f": ("lookup", lambda m, c, f: c.face_to_faces(f), lambda r, s, f: r.face_to_faces(f), "set"),  # no order is stated
     "f2e": ("lookup", lambda m, c, f: c.face_to_edges(f),
             lambda r, s, f: [r.edge_id(r.faces[f][j], r.faces[f][(j + 1) % len(r.faces[f])]) for j in range(len(r.faces[f]))], "exact"),
     "f2v": ("lookup", lambda m, c, f: c.face_to_vertices(f), lambda r, s, f: list(r.faces[f]), "exact"),
